@@ -27,7 +27,7 @@ def src(path, pfx):
         "entry": {pfx + "_dowrite": "VP_SNAP_HEAD(g_wq);", pfx + "_doread": "VP_SNAP_HEAD(g_rq);"}}}
 
 
-def units(pfx, M, which):
+def units(pfx, M, which, caps):
     d = ["VP_M_%s 1" % M]
     out = []
 
@@ -42,7 +42,7 @@ def units(pfx, M, which):
         out.append(x)
 
     if "xfer" in which:
-        for cap in CAPS:
+        for cap in caps:
             for fn in ("dowrite", "doread"):
                 u("%s_n%d" % (fn, cap), fn, ["C01", "C02", "C03", "C11"], grade="B",
                   defines=["VP_NIO_CAP %d" % cap],
@@ -75,7 +75,7 @@ def main():
           "includes_before": ["modules/posixstream/spec.h", "modules/posixstream/ghost.h"],
           "includes_after": ["include/env_sync.h", "modules/posixstream/env.h", "modules/posixstream/contracts.h", "modules/posixstream/harness.c"],
           "stubs": cfg["stubs"],
-          "units": sum([units(m, S[m][1], cfg["register"].get(m, [])) for m in mods], []),
+          "units": sum([units(m, S[m][1], cfg["register"].get(m, []), cfg.get("caps", {}).get(m, CAPS)) for m in mods], []),
           "not_decided": cfg["not_decided"],
           "notes": cfg.get("notes", [])}
     json.dump(sp, open(os.path.join(HERE, "spec.json"), "w"), indent=1)
